@@ -9,9 +9,14 @@ import (
 )
 
 func (o *orbitDB) handleEventExchangeHeads(ctx context.Context, e *iface.MessageExchangeHeads, store iface.Store) error {
-	untypedHeads := make([]ipfslog.Entry, len(e.Heads))
-	for i, h := range e.Heads {
-		untypedHeads[i] = h
+	untypedHeads := make([]ipfslog.Entry, 0, len(e.Heads))
+	for _, h := range e.Heads {
+		if h == nil {
+			// a decoded null head must not be boxed: it would be a non-nil interface holding a nil pointer
+			continue
+		}
+
+		untypedHeads = append(untypedHeads, h)
 	}
 
 	o.logger.Debug(fmt.Sprintf("%s: Received %d heads for '%s':", o.PeerID().String(), len(untypedHeads), e.Address))
